@@ -28,8 +28,9 @@ import (
 
 // Stmt mirrors Sentinel.AdapterIR.Stmt.
 type Stmt struct {
-	Kind    string // entry ifBlocked fallback ret deferExit exitNow useEntry callNext unknown
+	Kind    string // entry ifBlocked reject ret deferExit exitNow useEntry callNext unknown
 	Then    []Stmt
+	Alts    [][]string // reject: per alternative path through the option tests, the callee names of the rejection
 	ErrBack bool
 	Trace   bool
 	Why     string // for unknown: what was not understood (commentary only)
@@ -37,9 +38,39 @@ type Stmt struct {
 
 // Prog mirrors Sentinel.AdapterIR.Prog.
 type Prog struct {
-	Key  string
-	Pos  string
-	Body []Stmt
+	Key     string
+	Fw      string   // adapter package directory
+	NextVia []string // how the function invokes the next handler: param, embedded, Next
+	Pos     string
+	Body    []Stmt
+}
+
+func altsText(alts [][]string) string {
+	var a []string
+	for _, x := range alts {
+		a = append(a, strings.Join(x, "+"))
+	}
+	return strings.Join(a, "|")
+}
+
+func altsLean(alts [][]string) string {
+	var a []string
+	for _, x := range alts {
+		var q []string
+		for _, v := range x {
+			q = append(q, fmt.Sprintf("%q", v))
+		}
+		a = append(a, "["+strings.Join(q, ", ")+"]")
+	}
+	return "[" + strings.Join(a, ", ") + "]"
+}
+
+// NextText is the `next=` field of the text form.
+func NextText(via []string) string {
+	if len(via) == 0 {
+		return "next=-"
+	}
+	return "next=" + strings.Join(via, ",")
 }
 
 func b01(b bool) string {
@@ -56,6 +87,8 @@ func Text(body []Stmt) string {
 		switch s.Kind {
 		case "ifBlocked":
 			sb = append(sb, "ifBlocked [ "+Text(s.Then)+" ]")
+		case "reject":
+			sb = append(sb, "reject:"+altsText(s.Alts))
 		case "callNext":
 			sb = append(sb, "callNext:"+b01(s.ErrBack)+":"+b01(s.Trace))
 		default:
@@ -72,6 +105,8 @@ func Lean(body []Stmt) string {
 		switch s.Kind {
 		case "ifBlocked":
 			sb = append(sb, ".ifBlocked "+Lean(s.Then))
+		case "reject":
+			sb = append(sb, ".reject "+altsLean(s.Alts))
 		case "callNext":
 			sb = append(sb, fmt.Sprintf(".callNext %v %v", s.ErrBack, s.Trace))
 		default:
@@ -110,6 +145,7 @@ type fnCtx struct {
 	entry    *ast.Object
 	blk      *ast.Object // nil when the block error is discarded (`_`)
 	hasEntry bool
+	nextVia  map[string]bool // shared by all paths of the function
 }
 
 type path struct {
@@ -156,25 +192,82 @@ func rootIdent(e ast.Expr) *ast.Ident {
 	}
 }
 
-// isNext: does this call invoke the wrapped handler?  (a)/(b)/(c) of the file comment.
-func (c *fnCtx) isNext(call *ast.CallExpr) bool {
+// nextKind: does this call invoke the wrapped handler, and how?  (a) "param", (b) "Next", (c) "embedded"
+// of the file comment; "" if it does not.
+func (c *fnCtx) nextKind(call *ast.CallExpr) string {
 	switch f := call.Fun.(type) {
 	case *ast.Ident:
-		return f.Obj != nil && c.params[f.Obj]
+		if f.Obj != nil && c.params[f.Obj] {
+			return "param"
+		}
 	case *ast.SelectorExpr:
 		if f.Sel.Name == "Next" {
 			if r := rootIdent(f.X); r != nil && r.Obj != nil && c.params[r.Obj] {
-				return true
+				return "Next"
 			}
 		}
 		if inner, ok := f.X.(*ast.SelectorExpr); ok && c.recv != nil {
 			if id, ok := inner.X.(*ast.Ident); ok && id.Obj == c.recv && c.embedded[c.recvType][inner.Sel.Name] {
-				return true
+				return "embedded"
 			}
 		}
 	}
-	return false
+	return ""
 }
+
+func (c *fnCtx) isNext(call *ast.CallExpr) bool { return c.nextKind(call) != "" }
+
+// sawNext records how the handler was invoked.
+func (c *fnCtx) sawNext(call *ast.CallExpr) {
+	if k := c.nextKind(call); k != "" && c.nextVia != nil {
+		c.nextVia[k] = true
+	}
+}
+
+// rejectVia names what a statement of the block branch does: the method called on the framework context
+// (`AbortWithStatus`, `StopExecution`, `WriteHeader`, …), `option` for the configured / default block fallback held
+// in the adapter's options, `pkg.Func` for a package-level function, `return` when the block error is returned.
+// The Lean framework table decides which of these stop the handler chain.
+func (c *fnCtx) rejectVia(n ast.Node) string {
+	var call *ast.CallExpr
+	ast.Inspect(n, func(x ast.Node) bool {
+		if call != nil {
+			return false
+		}
+		if _, ok := x.(*ast.FuncLit); ok {
+			return false
+		}
+		if ce, ok := x.(*ast.CallExpr); ok {
+			call = ce
+			return false
+		}
+		return true
+	})
+	if call == nil {
+		return "return"
+	}
+	switch f := call.Fun.(type) {
+	case *ast.SelectorExpr:
+		r := rootIdent(f.X)
+		switch {
+		case r == nil:
+			return f.Sel.Name
+		case r.Obj != nil && r.Obj.Kind == ast.Var && strings.Contains(strings.ToLower(f.Sel.Name), "fallback"):
+			return "option"
+		case r.Obj != nil && c.params[r.Obj]:
+			return f.Sel.Name
+		case r.Obj == nil:
+			return r.Name + "." + f.Sel.Name
+		default:
+			return f.Sel.Name
+		}
+	case *ast.Ident:
+		return f.Name
+	}
+	return "call"
+}
+
+func rej(via string) Stmt { return Stmt{Kind: "reject", Alts: [][]string{{via}}} }
 
 // isLocalFuncVarCall: a call through a local (non-parameter) variable: cannot be classified.
 func (c *fnCtx) isLocalFuncVarCall(call *ast.CallExpr) bool {
@@ -321,10 +414,39 @@ func dedupe(ps []path) []path {
 	return out
 }
 
-// fork: the two continuations of an opaque test; merged when they yield the same programs.
+func skeletons(ps []path) string {
+	var t []string
+	for _, p := range ps {
+		t = append(t, skeleton(collapse(p.body)))
+	}
+	sort.Strings(t)
+	var u []string
+	for i, x := range t {
+		if i == 0 || x != t[i-1] {
+			u = append(u, x)
+		}
+	}
+	return strings.Join(u, "\n")
+}
+
+// fork: the two continuations of an opaque test.  When they yield the same programs up to the callee names of the
+// rejections (configured fallback vs default rejection) they are merged into one program whose `reject` statements
+// list the alternatives; otherwise they become arms `T` / `E`.
 func fork(tag string, a, b []path) []path {
-	if texts(a) == texts(b) {
-		return dedupe(a)
+	if skeletons(a) == skeletons(b) {
+		var out []path
+		seen := map[string]int{}
+		for _, p := range append(append([]path{}, a...), b...) {
+			body := collapse(p.body)
+			k := skeleton(body)
+			if i, ok := seen[k]; ok {
+				out[i].body = mergeAlts(out[i].body, body)
+				continue
+			}
+			seen[k] = len(out)
+			out = append(out, path{p.label, body})
+		}
+		return out
 	}
 	var out []path
 	for _, p := range dedupe(a) {
@@ -410,6 +532,7 @@ func (c *fnCtx) conv(list []ast.Stmt, inBlk bool, depth int) []path {
 			if !ok {
 				return cont(unk(c, s, "handler result bound to a non-identifier"))
 			}
+			c.sawNext(call)
 			return c.afterCall(last, rest, inBlk, depth)
 		}
 		return c.plain(s, f, rest, inBlk, depth)
@@ -425,6 +548,7 @@ func (c *fnCtx) conv(list []ast.Stmt, inBlk bool, depth int) []path {
 				if c.argsInteresting(call) {
 					return cont(unk(c, s, "handler call with entry/handler in its arguments"))
 				}
+				c.sawNext(call)
 				return cont(Stmt{Kind: "callNext"})
 			}
 			if _, ok := c.isAPICall(call, "TraceError"); ok {
@@ -471,6 +595,7 @@ func (c *fnCtx) conv(list []ast.Stmt, inBlk bool, depth int) []path {
 				return stop(unk(c, s, "handler call nested in a return expression"), Stmt{Kind: "ret"})
 			}
 			// `return next(...)`: whatever the handler returns goes straight to the caller, untraced
+			c.sawNext(ce)
 			return stop(Stmt{Kind: "callNext", ErrBack: c.hasRes, Trace: false}, Stmt{Kind: "ret"})
 		}
 		if f.entryDeref {
@@ -482,7 +607,7 @@ func (c *fnCtx) conv(list []ast.Stmt, inBlk bool, depth int) []path {
 			pre = append(pre, unk(c, s, "call through a local variable"))
 		}
 		if inBlk && (f.anyCall || f.blkMention) {
-			pre = append(pre, Stmt{Kind: "fallback"})
+			pre = append(pre, rej(c.rejectVia(s)))
 		}
 		return stop(append(pre, Stmt{Kind: "ret"})...)
 
@@ -548,7 +673,7 @@ func (c *fnCtx) conv(list []ast.Stmt, inBlk bool, depth int) []path {
 			return cont(unk(c, s, fmt.Sprintf("%T involving the entry / handler / a return", s)))
 		}
 		if inBlk && f.anyCall {
-			return cont(Stmt{Kind: "fallback"})
+			return cont(rej(c.rejectVia(s)))
 		}
 		return cont()
 	}
@@ -580,7 +705,7 @@ func (c *fnCtx) plain(s ast.Stmt, f facts, rest []ast.Stmt, inBlk bool, depth in
 		pre = append(pre, unk(c, s, "entry aliased"))
 	}
 	if inBlk && f.anyCall {
-		pre = append(pre, Stmt{Kind: "fallback"})
+		pre = append(pre, rej(c.rejectVia(s)))
 	}
 	return prepend(pre, c.conv(rest, inBlk, depth+1))
 }
@@ -629,10 +754,63 @@ func collapse(body []Stmt) []Stmt {
 		if s.Kind == "ifBlocked" {
 			s.Then = collapse(s.Then)
 		}
-		if s.Kind == "fallback" && len(out) > 0 && out[len(out)-1].Kind == "fallback" {
+		if s.Kind == "reject" && len(out) > 0 && out[len(out)-1].Kind == "reject" {
+			prev := out[len(out)-1]
+			var alts [][]string
+			for _, a := range prev.Alts {
+				for _, b := range s.Alts {
+					alts = append(alts, append(append([]string{}, a...), b...))
+				}
+			}
+			out[len(out)-1] = Stmt{Kind: "reject", Alts: alts}
 			continue
 		}
 		out = append(out, s)
+	}
+	return out
+}
+
+// skeleton: the text of a (collapsed) body with the callee names of its rejections erased.
+func skeleton(body []Stmt) string {
+	var sb []string
+	for _, s := range body {
+		switch s.Kind {
+		case "ifBlocked":
+			sb = append(sb, "ifBlocked [ "+skeleton(s.Then)+" ]")
+		case "reject":
+			sb = append(sb, "reject")
+		case "callNext":
+			sb = append(sb, "callNext:"+b01(s.ErrBack)+":"+b01(s.Trace))
+		default:
+			sb = append(sb, s.Kind)
+		}
+	}
+	return strings.Join(sb, " ")
+}
+
+// mergeAlts: two bodies with the same skeleton become one whose rejections carry the alternatives of both.
+func mergeAlts(a, b []Stmt) []Stmt {
+	out := make([]Stmt, len(a))
+	for i := range a {
+		out[i] = a[i]
+		switch a[i].Kind {
+		case "ifBlocked":
+			out[i].Then = mergeAlts(a[i].Then, b[i].Then)
+		case "reject":
+			alts := append([][]string{}, a[i].Alts...)
+			for _, y := range b[i].Alts {
+				dup := false
+				for _, x := range alts {
+					if strings.Join(x, "+") == strings.Join(y, "+") {
+						dup = true
+					}
+				}
+				if !dup {
+					alts = append(alts, y)
+				}
+			}
+			out[i].Alts = alts
+		}
 	}
 	return out
 }
@@ -685,7 +863,7 @@ func (fc *fileCtx) walkFunc(rel, name string, ft *ast.FuncType, body *ast.BlockS
 	if body == nil {
 		return
 	}
-	c := &fnCtx{fileCtx: fc, params: map[*ast.Object]bool{}}
+	c := &fnCtx{fileCtx: fc, params: map[*ast.Object]bool{}, nextVia: map[string]bool{}}
 	if outer != nil {
 		for k := range outer.params {
 			c.params[k] = true
@@ -702,7 +880,16 @@ func (fc *fileCtx) walkFunc(rel, name string, ft *ast.FuncType, body *ast.BlockS
 			if len(ps) > 1 {
 				key += ":" + p.label
 			}
-			*out = append(*out, Prog{Key: key, Pos: fc.fset.Position(body.Pos()).String(), Body: p.body})
+			var via []string
+			for k := range c.nextVia {
+				via = append(via, k)
+			}
+			sort.Strings(via)
+			fw := rel
+			if i := strings.Index(rel, "/"); i >= 0 {
+				fw = rel[:i]
+			}
+			*out = append(*out, Prog{Key: key, Fw: fw, NextVia: via, Pos: fc.fset.Position(body.Pos()).String(), Body: p.body})
 		}
 	}
 	// nested literals, numbered in source order within this function
